@@ -135,3 +135,33 @@ class Report:
                                             len(self.violations), wall))
         sys.stdout.flush()
         return 1 if self.violations else 0
+
+
+def through_impl(exc):
+    """True if the exception's traceback passes through acnportal code: the implementation failed
+    on a generated case (a finding), as opposed to a bug in the harness (machinery failure)."""
+    tb = exc.__traceback__
+    while tb is not None:
+        fn = tb.tb_frame.f_code.co_filename.replace("\\", "/")
+        if "/acnportal/" in fn and "/verif/" not in fn:
+            return True
+        tb = tb.tb_next
+    return False
+
+
+def guarded(fn):
+    """Wrap a replay function: an exception escaping from the implementation while it executes a
+    case the specification accepts is a mismatch ({"field": "exception.<Type>", ...}), never a
+    machinery failure."""
+    import functools
+
+    @functools.wraps(fn)
+    def wrapper(case, *a, **k):
+        try:
+            return fn(case, *a, **k)
+        except Exception as e:  # noqa
+            if through_impl(e):
+                return {"field": "exception.%s" % type(e).__name__, "key": "exception:%s" % type(e).__name__,
+                        "spec": "no exception", "impl": "%s: %s" % (type(e).__name__, str(e)[:200])}
+            raise
+    return wrapper
